@@ -314,12 +314,7 @@ def run(chk):
     from symex import loader
 
     ll = loader.load('io.sqw._low_level_io')
-    chk.functions = loader.describe([build.SqwBuilder.create, build.SqwBuilder._serialize_data_blocks, build.SqwBuilder._serialize_block_allocation_table,
-                                     build.SqwBuilder._prepare_data_blocks, build.SqwBuilder._make_file_header, build.SqwBuilder.add_pixel_data,
-                                     build._to_canonical_block_order, build._write_file_header, build._write_data_block_descriptor,
-                                     build._PixWrap.size, build._PixWrap.write, build._DndPlaceholder.size, build._DndPlaceholder.write,
-                                     rw.write_object_array, rw.read_object_array, sqw._read_file_header, sqw._read_block_allocation_table,
-                                     sqw._read_pix_block, sqw._read_dnd_block, ll._deduce_byteorder])
+    chk.functions = loader.describe_exprs(['build.SqwBuilder.create', 'build.SqwBuilder._serialize_data_blocks', 'build.SqwBuilder._serialize_block_allocation_table', 'build.SqwBuilder._prepare_data_blocks', 'build.SqwBuilder._make_file_header', 'build.SqwBuilder.add_pixel_data', 'build._to_canonical_block_order', 'build._write_file_header', 'build._write_data_block_descriptor', 'build._PixWrap.size', 'build._PixWrap.write', 'build._DndPlaceholder.size', 'build._DndPlaceholder.write', 'rw.write_object_array', 'rw.read_object_array', 'sqw._read_file_header', 'sqw._read_block_allocation_table', 'sqw._read_pix_block', 'sqw._read_dnd_block', 'll._deduce_byteorder'], {**globals(), **locals()})
     K = 6 if chk.tier == 'quick' else 12
     orders = [('pix', 'instrument', 'sample', 'dnd', 'detpar'), ('detpar', 'dnd', 'sample', 'instrument', 'pix'), ('dnd', 'pix'), ('pix',),
               ('sample', 'pix', 'dnd'), ('dnd',), ()]
